@@ -44,6 +44,7 @@ type Recorder struct {
 	MaxFailures   int
 	deadline      time.Time
 	firstFail     time.Time
+	perSig        map[string]int
 }
 
 // Enough reports that the unit has found enough failures to stop exploring:
@@ -135,7 +136,14 @@ func (r *Recorder) Fail(f Failure) {
 	if len(f.Got) > 2000 {
 		f.Got = f.Got[:2000] + "…"
 	}
-	if len(r.Failures) < r.MaxFailures {
+	// keep a few failures per (clause, tags) signature, so that many cases of one
+	// defect cannot crowd out a different one
+	sig := f.Clause + "|" + strings.Join(f.Tags, ",")
+	if r.perSig == nil {
+		r.perSig = map[string]int{}
+	}
+	if r.perSig[sig] < 4 && len(r.Failures) < r.MaxFailures {
+		r.perSig[sig]++
 		r.Failures = append(r.Failures, f)
 	}
 }
